@@ -205,16 +205,27 @@ pub fn schedule_part(run: &Run) -> Out {
     // persistent, so thread-bound state survives from the faulting execution to the next one; all
     // task-to-worker assignments of the valid solve).  Seed `C12-scratch-static-survives-a-fault`.
     {
-        let mut n_hist = 0u64;
+        let mut hist: Vec<(bool, usize, usize, u32)> = vec![];
         for upper in [false, true] {
-            let t = if upper { TriangularType::Upper } else { TriangularType::Lower };
             for n in [2usize, 3] {
-                // bad: unit triangular except one non-unit diagonal entry 2 at position p
                 for p in 0..n {
-                    for yk in 0..(1u32 << n) {
-                        if yk == 0 {
-                            continue;
+                    for yk in 1..(1u32 << n) {
+                        // quick: the right-hand sides with one or all entries set
+                        if th || yk.count_ones() == 1 || yk == (1u32 << n) - 1 {
+                            hist.push((upper, n, p, yk));
                         }
+                    }
+                }
+            }
+        }
+        run.add("c12_fault_histories", hist.len() as u64);
+        run.par_for(hist.len(), |hi| {
+            let (upper, n, p, yk) = hist[hi];
+            let t = if upper { TriangularType::Upper } else { TriangularType::Lower };
+            {
+                {
+                    {
+                        {
                         let bad = RMat::<Z>::from_fn(n, n, |i, j| if i == j { if i == p { z(2) } else { z(1) } } else if (upper && i < j) || (!upper && i > j) { z(1) } else { z(0) });
                         let ybad = RMat::<Z>::from_fn(n, 2, |i, _| z(((yk >> i) & 1) as i64));
                         let good = RMat::<Z>::from_fn(n, n, |i, j| if i == j { z(1) } else if (upper && i < j) || (!upper && i > j) { z(1) } else { z(0) });
@@ -235,7 +246,6 @@ pub fn schedule_part(run: &Run) -> Out {
                             }
                         }
                         let key = format!("spsched:fault-history:{}:n{n}:p{p}:y{yk}", if upper { "U" } else { "L" });
-                        n_hist += 1;
                         // (1) one thread, no scheduler
                         let _ = vcore::catch(|| solve_triangular(t, &ab, &yb));
                         match vcore::catch(|| from_spmat(&solve_triangular(t, &ag, &yg))) {
@@ -248,11 +258,11 @@ pub fn schedule_part(run: &Run) -> Out {
                         let _ = sched::run_scheduled(&cfg, &[], || solve_triangular(t, &ab, &yb));
                         let _ = sched::run_scheduled(&cfg, &[1], || solve_triangular(t, &ab, &yb));
                         explore_case(run, &format!("{key}:W2"), &cfg, None, || from_spmat(&solve_triangular(t, &ag, &yg)), &want, json!({"bad": bad.show(), "y_bad": ybad.show(), "good": good.show(), "y": ygood.show()}), &tot);
+                        }
                     }
                 }
             }
-        }
-        run.add("c12_fault_histories", n_hist);
+        });
     }
     // ---- wide Schur complements: >= 64 columns outside the pivot block --------------------------------
     // (a column loop that is chunked or forks only above a minimum length hands a worker whole ranges
